@@ -892,3 +892,56 @@ pub fn run_isolated(
         }
     }
 }
+
+/// Exhaustive enumerations: item `i` of `n` is built by `make(i)`; indices are dealt round-robin
+/// to the worker threads. Stops at the first failure per thread.
+pub fn run_indexed<C: Case>(
+    ctx: &mut Ctx,
+    sub: &str,
+    n: u64,
+    make: &(dyn Fn(u64) -> Option<C> + Sync),
+    check: &(dyn Fn(&C, &mut Obs) -> Result<(), String> + Sync),
+) {
+    let threads = ctx.threads.max(1) as u64;
+    let mut results: Vec<(Stats, Option<Failure>)> = Vec::new();
+    std::thread::scope(|s| {
+        let mut hs = vec![];
+        for t in 0..threads {
+            hs.push(s.spawn(move || {
+                install_panic_hook();
+                let mut st = Stats::default();
+                let mut fail = None;
+                let mut i = t;
+                while i < n {
+                    if let Some(case) = make(i) {
+                        let mut obs = Obs::default();
+                        let r = guard(|| check(&case, &mut obs)).unwrap_or_else(|p| Err(format!("panic: {}", p)));
+                        st.record(sub, &case, obs);
+                        if let Err(m) = r {
+                            let (c, m) = minimise(split_replay_case(case, m), check);
+                            fail = Some(Failure { check: sub.to_string(), case: serde_json::to_value(&c).unwrap_or(Value::Null), message: m });
+                            break;
+                        }
+                    }
+                    i += threads;
+                }
+                (st, fail)
+            }));
+        }
+        for h in hs {
+            match h.join() {
+                Ok(r) => results.push(r),
+                Err(_) => {
+                    eprintln!("INFRA: worker thread died");
+                    std::process::exit(2);
+                }
+            }
+        }
+    });
+    for (st, f) in results {
+        ctx.stats.merge(st);
+        if let Some(f) = f {
+            ctx.fail(f);
+        }
+    }
+}
